@@ -37,6 +37,26 @@ CHECKS = {
         'note': _NOTE + ' Tie order is free.  Infinite chi^2 from remove_resolved is not produced through the fitter here.',
         'technique': 'TLA+ spec + TLC; spec->code replay of whole FitInfo rows; trace validation (rank, ids, predicted fluxes)',
     },
+    'C10': {
+        'text': 'FitSession.tla is the main machine: the data file written line by line, fit() as the code\'s loop (ReadLine -> skip | FitKeep -> AppendRec, a line with < 3 columns ends the input), '
+                'reading the file back, post-processing calls (3 functions x file | object | list input x selectors) and filter_output; fits come from FitKernel, selection from Select.  TLC checks '
+                'FileFaithful (one record per eligible line before the first short line, in order, = Keep(Fit(src), sel), predicted fluxes iff requested), FileGrowsOnly, PostPure and termination of the loop '
+                'exhaustively (pool of 6 sources, 4 models, files of <= 3 lines, all argument combinations, <= 2 later calls).  TLC -simulate behaviours (files of <= 6 lines, <= 3 later calls) carrying the expected file '
+                'and the expected listing of every later call are replayed through sedfitter.fit, FitInfoFile, write_parameters, write_parameter_ranges, extract_parameters: records compared NaN-aware with '
+                'Fitter.fit+keep, metadata compared, and after EVERY call all in-memory results and the file bytes re-projected.  Recorded random sessions (random worlds, <= 12 lines, <= 4 calls) are validated by Trace_FitSession '
+                'whose unlogged loop steps are composed silently.',
+        'ref': 'DESIGN.md section 6 C10',
+        'note': _NOTE + ' Runs that write no record are outside the property.  Parameter values inside listings are C09\'s subject; C10 compares names, n_data, n_fits, row counts.',
+        'technique': 'TLA+ state machine + TLC (safety, action properties, liveness); -simulate behaviours replayed through the real pipeline; trace validation with silent steps',
+    },
+    'C18': {
+        'text': 'filter_output is the Split action of FitSession: a verdict per record from the best chi^2 (chi=) or best chi^2 per fitted point (cpd=) against the threshold, under Select\'s abstract-float rules.  '
+                'Thresholds are generated tightly around every pool source\'s own criterion value.  Replay through the real function on file and list inputs (explicit and automatic output names): each source in exactly one '
+                'file, input order kept, records NaN-aware equal to the input, verdicts as the spec says; recorded sessions validated by Trace_FitSession.',
+        'ref': 'DESIGN.md section 6 C18',
+        'note': _NOTE + ' Records with zero kept fits are not split (the function indexes the best fit).',
+        'technique': 'TLA+ state machine + TLC; behaviours replayed through filter_output; trace validation',
+    },
     'C11': {
         'text': 'TLC checks the kernel invariances PermuteBands (all 6 permutations of 3 bands) and ScaleFlux (4 constants) on every enumerated source.  Replay: all sampled behaviours of a '
                 'configuration go through ONE real fitter in seed-shuffled order (history freedom; source pickled before/after), then again on packages with bands and models permuted and all '
